@@ -199,23 +199,14 @@ Section Group.
     destruct o; try reflexivity. exfalso. apply (N total_limit). left. reflexivity.
   Qed.
 
-  (** ** checkTotalSizeLimit itself, on any group *)
-  Lemma prune_loop_spec : forall i fs total limit,
-    let k := fst (prune_loop i fs total limit) in
-    k <= i /\ k <= length fs /\
-    (forall j, j < k -> (limit <= total - Z.of_nat (length (concat (firstn j fs))))%Z) /\
-    (k < i -> k < length fs -> (total - Z.of_nat (length (concat (firstn k fs))) < limit)%Z).
+  (** ** the repair steps of OnStart inside a group: the head is rewritten to its longest valid prefix *)
+  Lemma repair_head_spec g cur tail ms :
+    g_head g = frames cur ++ tail -> Forall2 (canon msg ser deser) cur ms ->
+    (forall m r, decode RFile tail <> OMsg m r) ->
+    repair_head crc msg ser deser g = (mkGroup (g_min g) (g_files g) (frames cur) [] (g_limit g), true).
   Proof.
-    induction i as [|i IH]; intros fs total limit; cbn [prune_loop].
-    - cbn [fst]. repeat split; try lia.
-    - destruct (Z.ltb_spec total limit) as [Lt|Ge].
-      + cbn [fst]. repeat split; try lia.
-      + destruct fs as [|f r]; [cbn [fst length]; repeat split; lia|].
-        specialize (IH r (total - Z.of_nat (length f))%Z limit).
-        destruct (prune_loop i r (total - Z.of_nat (length f)) limit) as [k fs'] eqn:E. cbn [fst] in *.
-        destruct IH as [A [B [C D]]]. cbn [length]. repeat split; try lia.
-        * intros [|j] Hj; [cbn; lia|]. cbn [firstn concat]. rewrite app_length. specialize (C j). lia.
-        * intros K1 K2. cbn [firstn concat]. rewrite app_length. assert (k < i) by lia. assert (k < length r) by lia. lia.
+    intros H C T. unfold repair_head, repair_onstart. rewrite H, (repair_prefix crc crc_range msg ser deser cur ms tail C T).
+    reflexivity.
   Qed.
 
   Lemma group_stream_min g : group_stream g (g_min g) = concat (disk_files g).
@@ -421,3 +412,51 @@ Section Group.
   Qed.
 
 End Group.
+
+(** ** checkTotalSizeLimit itself, on any group *)
+Lemma prune_loop_spec : forall i fs total limit,
+  let k := fst (prune_loop i fs total limit) in
+  k <= i /\ k <= length fs /\
+  (forall j, j < k -> (limit <= total - Z.of_nat (length (concat (firstn j fs))))%Z) /\
+  (k < i -> k < length fs -> (total - Z.of_nat (length (concat (firstn k fs))) < limit)%Z).
+Proof.
+  induction i as [|i IH]; intros fs total limit; cbn [prune_loop].
+  - cbn [fst]. repeat split; try lia.
+  - destruct (Z.ltb_spec total limit) as [Lt|Ge].
+    + cbn [fst]. repeat split; try lia.
+    + destruct fs as [|f r]; [cbn [fst length]; repeat split; lia|].
+      specialize (IH r (total - Z.of_nat (length f))%Z limit).
+      destruct (prune_loop i r (total - Z.of_nat (length f)) limit) as [k fs'] eqn:E. cbn [fst] in *.
+      destruct IH as [A [B [C D]]]. cbn [length]. repeat split; try lia.
+      * intros [|j] Hj; [cbn; lia|]. cbn [firstn concat]. rewrite app_length. specialize (C j). lia.
+      * intros K1 K2. cbn [firstn concat]. rewrite app_length. assert (k < i) by lia. assert (k < length r) by lia. lia.
+Qed.
+
+Lemma length_concat_firstn_skipn {A} k (l : list (list A)) :
+  length (concat l) = length (concat (firstn k l)) + length (concat (skipn k l)).
+Proof. rewrite <- (firstn_skipn k l) at 1. rewrite concat_app, app_length. reflexivity. Qed.
+
+(** checkTotalSizeLimit on ANY group: only rotated files go, oldest first, at most maxFilesToRemove,
+    the head and the write buffer are untouched; every removal happened with the (remaining) total
+    at or above the limit, and it stops as soon as the total is below the limit *)
+Lemma prune_sound tl g :
+  let k := pruned_count tl g in
+  let g' := check_total_size_limit tl g in
+  g_files g' = skipn k (g_files g) /\ g_head g' = g_head g /\ g_buf g' = g_buf g /\ g_min g' = g_min g + k /\
+  k <= N.to_nat max_files_to_remove /\ k <= length (g_files g) /\
+  (forall j, j < k -> tl <> 0%Z /\ (tl <= total_size g - Z.of_nat (length (concat (firstn j (g_files g)))))%Z) /\
+  (tl <> 0%Z -> k < N.to_nat max_files_to_remove -> k < length (g_files g) -> (total_size g' < tl)%Z).
+Proof.
+  intros k g'. unfold g', check_total_size_limit. fold k. cbn [g_files g_head g_buf g_min].
+  repeat (split; [reflexivity|]).
+  unfold k, pruned_count. destruct (Z.eqb_spec tl 0) as [E|NE].
+  - repeat split; lia.
+  - cbv iota.
+    pose proof (prune_loop_spec (N.to_nat max_files_to_remove) (g_files g) (total_size g) tl) as P.
+    cbv zeta in P. set (kk := fst (prune_loop (N.to_nat max_files_to_remove) (g_files g) (total_size g) tl)) in P |- *.
+    destruct P as [A [B [C D]]]. repeat split; auto.
+    intros _ K1 K2. specialize (D K1 K2). unfold total_size in D |- *. cbn [g_files g_head].
+    rewrite (length_concat_firstn_skipn kk (g_files g)) in D. clearbody kk. clear k g'. unfold bytes in D |- *. lia.
+Qed.
+
+
